@@ -7,7 +7,7 @@ V = os.path.dirname(os.path.dirname(os.path.abspath(__file__)))
 sys.path.insert(0, V)
 from pyvc.spec import REG
 from pyvc.source import locate, skeleton
-for m in sorted(f[:-3] for f in os.listdir(os.path.join(V, "specs")) if f.endswith(".py") and f != "__init__.py"):
+for m in sorted(f[:-3] for f in os.listdir(os.path.join(V, "specs")) if f.endswith(".py") and not f.startswith("_")):
     importlib.import_module("specs." + m)
 out = {}
 for k, sp in REG.fns.items():
